@@ -2,7 +2,7 @@
 Theorems: coq/Props/C15.v.  Correspondence + falsifier: tools/errors_engine.py."""
 import errors_engine
 
-GEN_UNITS = ['Encoders', 'Criteria', 'Pseudo']
+GEN_UNITS = ['Encoders', 'Criteria', 'Pseudo', 'PassTable']
 ASSUMPTIONS = ['one identifiable faulty line in an otherwise valid program (the quantifier of the property); wrong operand '
                'COUNTS (`mv t0`) are not among the listed fault classes and are not planted']
 
@@ -16,7 +16,7 @@ def replay(ctx, rec):
 
 
 CLAIM = dict(
- text="C15_no_internal_exception: on well-formed items (what the parser hands over: class-shaped operand fields, table mnemonics, pseudo-instructions with the operand count of the regenerated template table, align N >= 1, size-table directive names, parser-shaped expressions) NO raw exception leaves any of the 16 passes of the model, both modes, any initial constants / labels -- proved through every pass with a stage-indexed invariant, using the totality of all 93 GENERATED encoders (Proofs/EncTotal.v), computed checks over the GENERATED criteria / construction / pseudo-template tables, and the generated try/except flag of the compression predicates. C15_parser_output_well_formed: whatever the parser model returns for ANY token list satisfies that well-formedness, with exactly two exceptions stated as hypotheses (pseudo-instruction operand count, shorthand directive spelled in upper case). C15_located: for the hand model of the 16 passes (both modes) every AssemblerError names the line of an item of the program -- each pass reports the item it is processing; pseudo expansions, compressed forms, alignment padding inherit the line (induction through all passes, with the line-inclusion chain of the layout theorem). C15_expression_faults: undefined label / constant and malformed / non-integer expressions can only raise the assembler's own error, at the item's line, never a raw exception. C15_malformed_expression: the parser model's parse_immediate on ANY token list returns a parser-shaped expression or the assembler's error at its line -- never a raw exception from tuple unpacking (false before fix 724a92b: D21); C15_align_operand: `align N` with N < 1 is refused by the parser at its line, Align items carry N >= 1 (D22, fix bd05113). C15_duplicate_label: the label pass fails exactly at a second definition; success implies unique names. C15_data_faults: no raw struct.error / ValueError leaves the pack and sequence passes (C10 states which values are refused). C15_encoder_faults: an encoder ValueError (C06: exactly the illegal operands) becomes the assembler's error at the instruction's line. NOT covered by the no-raw theorem (stated in its comment): wrong operand COUNT of a pseudo-instruction, upper-case shorthand directive, a file changing between read and embed; the parser model itself still has raw branches for wrong operand counts. Falsifier: one fault of each listed class planted at every position of valid programs, top level and include depth 1-3, inside pseudo expansions, both modes; the REAL assembler must raise AssemblerError with the planted file and line; the same programs feed the model-vs-real correspondence on error class and location. Found D12 (duplicate label accepted), D14 (raw struct.error), earlier D13, and D21-D23 (malformed modifier expressions, align 0, malformed imm(reg) operand: raw ValueError / IndexError / ZeroDivisionError); all fixed in /repo.",
+ text="C15_no_internal_exception: on well-formed items (what the parser hands over: class-shaped operand fields, table mnemonics, pseudo-instructions with the operand count of the regenerated template table, align N >= 1, size-table directive names, parser-shaped expressions) NO raw exception leaves any of the 16 passes of the model, both modes, any initial constants / labels -- proved through every pass with a stage-indexed invariant, using the totality of all 93 GENERATED encoders (Proofs/EncTotal.v), computed checks over the GENERATED criteria / construction / pseudo-template tables, and the generated try/except flag of the compression predicates. C15_parser_output_well_formed: whatever the parser model returns for ANY token list satisfies that well-formedness, with exactly two exceptions stated as hypotheses (pseudo-instruction operand count, shorthand directive spelled in upper case). C15_handlers_from_source: the try/except conversions the model relies on are read from the source on every run (Gen/PassTable.v) and consulted by the model. C15_located: for the hand model of the 16 passes (both modes) every AssemblerError names the line of an item of the program -- each pass reports the item it is processing; pseudo expansions, compressed forms, alignment padding inherit the line (induction through all passes, with the line-inclusion chain of the layout theorem). C15_expression_faults: undefined label / constant and malformed / non-integer expressions can only raise the assembler's own error, at the item's line, never a raw exception. C15_malformed_expression: the parser model's parse_immediate on ANY token list returns a parser-shaped expression or the assembler's error at its line -- never a raw exception from tuple unpacking (false before fix 724a92b: D21); C15_align_operand: `align N` with N < 1 is refused by the parser at its line, Align items carry N >= 1 (D22, fix bd05113). C15_duplicate_label: the label pass fails exactly at a second definition; success implies unique names. C15_data_faults: no raw struct.error / ValueError leaves the pack and sequence passes (C10 states which values are refused). C15_encoder_faults: an encoder ValueError (C06: exactly the illegal operands) becomes the assembler's error at the instruction's line. NOT covered by the no-raw theorem (stated in its comment): wrong operand COUNT of a pseudo-instruction, upper-case shorthand directive, a file changing between read and embed; the parser model itself still has raw branches for wrong operand counts. Falsifier: one fault of each listed class planted at every position of valid programs, top level and include depth 1-3, inside pseudo expansions, both modes; the REAL assembler must raise AssemblerError with the planted file and line; the same programs feed the model-vs-real correspondence on error class and location. Found D12 (duplicate label accepted), D14 (raw struct.error), earlier D13, and D21-D23 (malformed modifier expressions, align 0, malformed imm(reg) operand: raw ValueError / IndexError / ZeroDivisionError); all fixed in /repo.",
  note="Trusted: as C03; file names and physical line numbers come from the real reader (C14 covers read_lines); the CLI's conversion of AssemblerError to exit status 1 is covered by C17's correspondence. Wrong operand COUNTS (`mv t0`) still escape as raw ValueError: not among the property's fault classes, not planted, noted in DESIGN.md.",
  technique="Coq proof (error-location invariant through all passes, per-class lemmas) over the pass model; planted-fault falsifier on the real assembler; differential correspondence on error class and location",
  design="6/C15")
